@@ -1,96 +1,251 @@
--------------------------------- MODULE Condvar --------------------------------
-(* DRAFT (round 0).  src/sync/condvar.rs wait_impl / notify_one over the SyncBlocker
-   hand-shake; the associated Mutex is abstracted to its checked contract (C05).
-   Client used to make "a notify_one issued while somebody waits wakes somebody" checkable
-   as deadlock-freedom:
-     B  classic waiter:   lock; while items = 0 { wait }; items -= 1; unlock
-     A  timed bystander:  lock; if items = 0 { wait_timeout }; unlock; if it was woken by a
-                          notification (not timed out) it passes it on with notify_one
-     N  notifier:         lock; items += 1; unlock; notify_one
-   If A is chosen by N's notify_one while it is timing out, the notification must reach B. *)
-EXTENDS Naturals, Sequences, FiniteSets, TLC
-CONSTANTS ForwardOnTimeout    \* TRUE = as written
-VARIABLES owner, items, toWake, token, unparked, release, pc, w, retTo, timedOut
-vars == <<owner, items, toWake, token, unparked, release, pc, w, retTo, timedOut>>
-Actors == {"A", "B", "N"}
-Init == /\ owner = "free" /\ items = 0 /\ toWake = <<>>
-        /\ token = [a \in {"A","B"} |-> FALSE] /\ unparked = [a \in {"A","B"} |-> FALSE]
-        /\ release = [a \in {"A","B"} |-> FALSE]
-        /\ pc = [a \in Actors |-> "lock"] /\ w = [a \in Actors |-> "none"]
-        /\ retTo = [a \in Actors |-> "done"] /\ timedOut = FALSE
-Goto(a, l) == pc' = [pc EXCEPT ![a] = l]
+------------------------------- MODULE Condvar -------------------------------
+(* Literal model of src/sync/condvar.rs (wait_impl / notify_one / notify_all) with the standard
+   client: a counter `ready` protected by the user mutex; a waiter does
+        lock; while ready = 0 { wait or wait_timeout }; ready -= 1; unlock
+   (a timed waiter gives up after its first timeout), a notifier does
+        lock; ready += 1; unlock; notify_one | notify_all.
+   pc[a] = name of the verification point the actor is stopped at (cv.* inside condvar.rs, sb.* inside
+   SyncBlocker, cvc.* placed by the harness in the client); labels without a dot are internal.
+   The user mutex is abstract here (its protocol is Mutex.tla, C05): an owner plus a FIFO of
+   blocked lockers; a locker that finds it taken blocks inside the step and continues when the lock
+   is handed to it.  park() is the AbsBlocker with real suspension, Tick and Cancel as in
+   Semaphore.tla.  wait_impl re-locks the mutex with cancel disabled and forwards a notification
+   that raced with its own timeout / cancel (is_unparked / set_release / take_release).
+
+   ForwardOnGiveUp = FALSE is the mutant "a waiter that gives up keeps the notification".      *)
+EXTENDS Integers, FiniteSets, Sequences, TLC
+CONSTANTS Actors, Victims, Prog, Dur, ForwardOnGiveUp
+
+VARIABLES toWake, token, unparked, release,        \* the condvar's queue and the blockers
+          mu, muq, cont, ready,                    \* user mutex (owner, waiters, continuation), predicate
+          pc, ip, w, retTo, cancelled, parked, res, deadline, now, timerHost,
+          gaveUp, notifies, served
+vars == <<toWake, token, unparked, release, mu, muq, cont, ready, pc, ip, w, retTo, cancelled, parked, res,
+          deadline, now, timerHost, gaveUp, notifies, served>>
+
+MaxOps == 2
+Blockers == Actors \X (1..MaxOps) \X (1..3)       \* a fresh SyncBlocker per wait_impl call (round)
+NoB == <<"none", 0, 0>>
+Op(a) == Prog[a][ip[a]]
+StartPc(a) == IF Len(Prog[a]) = 0 THEN "done" ELSE "cvc.lock"
+
+VARIABLE round
+allvars == <<vars, round>>
+Me(a) == <<a, ip[a], round[a]>>
+
+Init ==
+  /\ toWake = <<>>
+  /\ token = [b \in Blockers |-> FALSE] /\ unparked = [b \in Blockers |-> FALSE]
+  /\ release = [b \in Blockers |-> FALSE]
+  /\ mu = "free" /\ muq = <<>> /\ cont = [a \in Actors |-> "none"] /\ ready = 0
+  /\ ip = [a \in Actors |-> 1] /\ pc = [a \in Actors |-> StartPc(a)]
+  /\ w = [a \in Actors |-> NoB] /\ retTo = [a \in Actors |-> "none"]
+  /\ cancelled = [a \in Actors |-> FALSE] /\ parked = [a \in Actors |-> FALSE]
+  /\ res = [a \in Actors |-> "none"] /\ deadline = [a \in Actors |-> 0] /\ now = 0 /\ timerHost = "none"
+  /\ gaveUp = [a \in Actors |-> FALSE]
+  /\ notifies = 0 /\ served = 0          \* ghost: notifications issued / waiters that consumed `ready`
+  /\ round = [a \in Actors |-> 1]
+
 UNCH_B == UNCHANGED <<token, unparked, release>>
-Lock(a) ==
-  /\ pc[a] = "lock" /\ owner = "free" /\ owner' = a
-  /\ Goto(a, IF a = "N" THEN "n.produce" ELSE "check")
-  /\ UNCHANGED <<items, toWake, w, retTo, timedOut>> /\ UNCH_B
-Produce == /\ pc["N"] = "n.produce" /\ items' = items + 1 /\ owner' = "free" /\ Goto("N", "notify.pop")
-           /\ retTo' = [retTo EXCEPT !["N"] = "done"]
-           /\ UNCHANGED <<toWake, w, timedOut>> /\ UNCH_B
-Check(a) ==
-  /\ pc[a] = "check" /\ a \in {"A", "B"}
-  /\ IF items = 0 THEN Goto(a, "cv.push") /\ UNCHANGED <<items, owner>>
-     ELSE IF a = "B" THEN items' = items - 1 /\ owner' = "free" /\ Goto(a, "done")
-                     ELSE owner' = "free" /\ Goto(a, "done") /\ UNCHANGED items
-  /\ UNCHANGED <<toWake, w, retTo, timedOut>> /\ UNCH_B
-CvPush(a) == /\ pc[a] = "cv.push" /\ toWake' = Append(toWake, a) /\ Goto(a, "cv.unlock")
-             /\ token' = [token EXCEPT ![a] = FALSE] /\ unparked' = [unparked EXCEPT ![a] = FALSE]
-             /\ release' = [release EXCEPT ![a] = FALSE]          \* fresh SyncBlocker per wait
-             /\ UNCHANGED <<owner, items, w, retTo, timedOut>>
-CvUnlock(a) == /\ pc[a] = "cv.unlock" /\ owner' = "free" /\ Goto(a, "cv.park")
-               /\ UNCHANGED <<items, toWake, w, retTo, timedOut>> /\ UNCH_B
-CvParkOk(a) == /\ pc[a] = "cv.park" /\ token[a] /\ token' = [token EXCEPT ![a] = FALSE]
-               /\ Goto(a, "cv.relock_ok")
-               /\ UNCHANGED <<owner, items, toWake, unparked, release, w, retTo, timedOut>>
-CvParkTimeout == /\ pc["A"] = "cv.park" /\ token' = [token EXCEPT !["A"] = FALSE] /\ timedOut' = TRUE
-                 /\ Goto("A", "cv.relock_err")
-                 /\ UNCHANGED <<owner, items, toWake, unparked, release, w, retTo>>
-Relock(a) ==
-  /\ pc[a] \in {"cv.relock_ok", "cv.relock_err"} /\ owner = "free" /\ owner' = a
-  /\ Goto(a, IF pc[a] = "cv.relock_ok" THEN (IF a = "B" THEN "check" ELSE "a.woken")
-             ELSE (IF ForwardOnTimeout THEN "cv.e_isunparked" ELSE "a.giveup"))
-  /\ UNCHANGED <<items, toWake, w, retTo, timedOut>> /\ UNCH_B
-(* error path of wait_impl, executed while holding the re-acquired mutex *)
-EIsUnparked == /\ pc["A"] = "cv.e_isunparked"
-               /\ IF unparked["A"] THEN Goto("A", "notify.pop") /\ retTo' = [retTo EXCEPT !["A"] = "a.giveup"]
-                                   ELSE Goto("A", "cv.e_setrel") /\ UNCHANGED retTo
-               /\ UNCHANGED <<owner, items, toWake, w, timedOut>> /\ UNCH_B
-ESetRel == /\ pc["A"] = "cv.e_setrel" /\ release' = [release EXCEPT !["A"] = TRUE] /\ Goto("A", "cv.e_recheck")
-           /\ UNCHANGED <<owner, items, toWake, token, unparked, w, retTo, timedOut>>
-ERecheck == /\ pc["A"] = "cv.e_recheck" /\ Goto("A", IF unparked["A"] THEN "cv.e_takerel" ELSE "a.giveup")
-            /\ UNCHANGED <<owner, items, toWake, w, retTo, timedOut>> /\ UNCH_B
-ETakeRel == /\ pc["A"] = "cv.e_takerel" /\ release' = [release EXCEPT !["A"] = FALSE]
-            /\ IF release["A"] THEN Goto("A", "notify.pop") /\ retTo' = [retTo EXCEPT !["A"] = "a.giveup"]
-                               ELSE Goto("A", "a.giveup") /\ UNCHANGED retTo
-            /\ UNCHANGED <<owner, items, toWake, token, unparked, w, timedOut>>
-AGiveUp == /\ pc["A"] = "a.giveup" /\ owner' = "free" /\ Goto("A", "done")
-           /\ UNCHANGED <<items, toWake, w, retTo, timedOut>> /\ UNCH_B
-AWoken == \* good citizen: woken by a notification it does not use -> pass it on
-  /\ pc["A"] = "a.woken" /\ owner' = "free" /\ Goto("A", "notify.pop") /\ retTo' = [retTo EXCEPT !["A"] = "done"]
-  /\ UNCHANGED <<items, toWake, w, timedOut>> /\ UNCH_B
-(* notify_one, by anybody *)
-NPop(a) == /\ pc[a] = "notify.pop"
-           /\ IF toWake = <<>> THEN Goto(a, retTo[a]) /\ UNCHANGED <<toWake, w>>
-                               ELSE w' = [w EXCEPT ![a] = Head(toWake)] /\ toWake' = Tail(toWake) /\ Goto(a, "notify.unpark")
-           /\ UNCHANGED <<owner, items, retTo, timedOut>> /\ UNCH_B
-NUnpark(a) == /\ pc[a] = "notify.unpark" /\ token' = [token EXCEPT ![w[a]] = TRUE] /\ Goto(a, "notify.set_unparked")
-              /\ UNCHANGED <<owner, items, toWake, unparked, release, w, retTo, timedOut>>
-NSetUnparked(a) == /\ pc[a] = "notify.set_unparked" /\ unparked' = [unparked EXCEPT ![w[a]] = TRUE]
-                   /\ Goto(a, "notify.takerel")
-                   /\ UNCHANGED <<owner, items, toWake, token, release, w, retTo, timedOut>>
-NTakeRel(a) == /\ pc[a] = "notify.takerel" /\ release' = [release EXCEPT ![w[a]] = FALSE]
-               /\ Goto(a, IF release[w[a]] THEN "notify.pop" ELSE retTo[a])
-               /\ UNCHANGED <<owner, items, toWake, token, unparked, w, retTo, timedOut>>
-AllOver == \A a \in Actors : pc[a] = "done"
-Stutter == AllOver /\ UNCHANGED vars
-Next == \/ \E a \in Actors : Lock(a) \/ Check(a) \/ CvPush(a) \/ CvUnlock(a) \/ CvParkOk(a) \/ Relock(a)
-                             \/ NPop(a) \/ NUnpark(a) \/ NSetUnparked(a) \/ NTakeRel(a)
-        \/ Produce \/ CvParkTimeout \/ EIsUnparked \/ ESetRel \/ ERecheck \/ ETakeRel \/ AGiveUp \/ AWoken
-        \/ Stutter
-Spec == Init /\ [][Next]_vars
-\* wait always re-acquires the mutex before returning
-ReacquireBeforeReturn == \A a \in {"A", "B"} : pc[a] \in {"check", "a.woken", "cv.e_isunparked", "cv.e_setrel", "cv.e_recheck", "cv.e_takerel", "a.giveup"} => owner = a
-\* state-based witness of "no lost notification": B never sleeps on an item nobody will announce
-NoLostNotify == ~(pc["B"] = "cv.park" /\ ~token["B"] /\ items > 0 /\ owner = "free"
-                  /\ pc["N"] = "done" /\ pc["A"] = "done")
+UNCH_M == UNCHANGED <<mu, muq, cont>>
+UNCH_T == UNCHANGED <<deadline, now, timerHost>>
+UNCH_G == UNCHANGED <<gaveUp, notifies, served>>
+LeaveTimer(a) == timerHost' = IF timerHost = a THEN "none" ELSE timerHost
+IsWaiter(a) == Op(a) \in {"wait", "twait"}
+
+\* abstract mutex with FIFO hand-off; `base` carries the other pc updates of the step
+MuAcquire(a, next, base) ==
+  IF mu = "free"
+    THEN mu' = a /\ muq' = muq /\ pc' = [base EXCEPT ![a] = next] /\ cont' = cont
+    ELSE mu' = mu /\ muq' = Append(muq, a) /\ pc' = [base EXCEPT ![a] = "mu.blocked"]
+         /\ cont' = [cont EXCEPT ![a] = next]
+MuRelease(a, next, base) ==
+  IF muq = <<>>
+    THEN mu' = "free" /\ muq' = muq /\ pc' = [base EXCEPT ![a] = next] /\ cont' = cont
+    ELSE LET h == Head(muq) IN
+         mu' = h /\ muq' = Tail(muq) /\ pc' = [base EXCEPT ![a] = next, ![h] = cont[h]]
+         /\ cont' = [cont EXCEPT ![h] = "none"]
+
+(* ------------------------------- client ------------------------------- *)
+\* lock() of the client; a cancelled coroutine that would have to block unwinds instead
+ClientLock(a) ==
+  /\ pc[a] = "cvc.lock"
+  /\ IF cancelled[a] /\ mu # "free"
+       THEN pc' = [pc EXCEPT ![a] = "dead"] /\ UNCH_M
+       ELSE MuAcquire(a, "cvc.crit", pc)
+  /\ UNCHANGED <<toWake, ready, ip, w, retTo, cancelled, parked, res, round>> /\ UNCH_B /\ UNCH_T /\ UNCH_G
+\* inside the critical section: waiters test the predicate, notifiers set it and unlock
+ClientCrit(a) ==
+  /\ pc[a] = "cvc.crit"
+  /\ IF IsWaiter(a)
+       THEN IF ready > 0 \/ gaveUp[a]
+              THEN /\ ready' = IF ready > 0 THEN ready - 1 ELSE ready
+                   /\ served' = IF ready > 0 THEN served + 1 ELSE served
+                   /\ MuRelease(a, "next", pc) /\ UNCHANGED <<notifies, gaveUp>>
+              ELSE /\ pc' = [pc EXCEPT ![a] = "cv.wait.push"] /\ UNCH_M /\ UNCHANGED <<ready, gaveUp, notifies, served>>
+       ELSE /\ ready' = ready + 1 /\ MuRelease(a, "cvc.notify", pc) /\ UNCH_G
+  /\ UNCHANGED <<toWake, ip, w, retTo, cancelled, parked, res, round>> /\ UNCH_B /\ UNCH_T
+ClientNotify(a) ==
+  /\ pc[a] = "cvc.notify"
+  /\ pc' = [pc EXCEPT ![a] = IF Op(a) = "notify_all" THEN "cv.notify_all" ELSE "cv.notify.pop"]
+  /\ retTo' = [retTo EXCEPT ![a] = "next"] /\ notifies' = notifies + 1
+  /\ UNCHANGED <<toWake, ready, ip, w, cancelled, parked, res, round, gaveUp, served>> /\ UNCH_B /\ UNCH_M /\ UNCH_T
+
+(* ------------------------------- wait_impl ------------------------------- *)
+WaitPush(a) ==
+  /\ pc[a] = "cv.wait.push"
+  /\ toWake' = Append(toWake, Me(a)) /\ pc' = [pc EXCEPT ![a] = "cv.wait.unlock"]
+  /\ UNCHANGED <<ready, ip, w, retTo, cancelled, parked, res, round>> /\ UNCH_B /\ UNCH_M /\ UNCH_T /\ UNCH_G
+WaitUnlock(a) ==
+  /\ pc[a] = "cv.wait.unlock"
+  /\ MuRelease(a, "sb.park", pc)
+  /\ UNCHANGED <<toWake, ready, ip, w, retTo, cancelled, parked, res, round>> /\ UNCH_B /\ UNCH_T /\ UNCH_G
+ParkEnter(a) ==
+  /\ pc[a] = "sb.park"
+  /\ IF token[Me(a)]
+       THEN /\ token' = [token EXCEPT ![Me(a)] = FALSE] /\ res' = [res EXCEPT ![a] = "Ok"]
+            /\ pc' = [pc EXCEPT ![a] = "sb.park.ret"] /\ UNCHANGED <<parked, deadline, timerHost>>
+       ELSE IF cancelled[a]
+         THEN /\ res' = [res EXCEPT ![a] = "Canceled"] /\ pc' = [pc EXCEPT ![a] = "sb.park.ret"]
+              /\ UNCHANGED <<token, parked, deadline, timerHost>>
+         ELSE /\ parked' = [parked EXCEPT ![a] = TRUE] /\ pc' = [pc EXCEPT ![a] = "parked"]
+              /\ deadline' = [deadline EXCEPT ![a] = IF Op(a) = "twait" THEN now + Dur[a] ELSE 0]
+              /\ LeaveTimer(a) /\ UNCHANGED <<token, res>>
+  /\ UNCHANGED <<toWake, unparked, release, ready, ip, w, retTo, cancelled, now, round>> /\ UNCH_M /\ UNCH_G
+ParkReturn(a) ==
+  /\ pc[a] = "sb.park.ret"
+  /\ token' = IF res[a] = "Ok" THEN token ELSE [token EXCEPT ![Me(a)] = FALSE]
+  /\ pc' = [pc EXCEPT ![a] = "cv.wait.relock"]
+  /\ UNCHANGED <<toWake, unparked, release, ready, ip, w, retTo, cancelled, parked, res, round>> /\ UNCH_M /\ UNCH_T /\ UNCH_G
+\* re-acquire the mutex (cancel disabled), then - if the park failed - hand the notification on
+WaitRelock(a) ==
+  /\ pc[a] = "cv.wait.relock"
+  /\ MuAcquire(a, IF res[a] = "Ok" THEN "wait.ret" ELSE (IF ForwardOnGiveUp THEN "sb.is_unparked" ELSE "wait.ret"), pc)
+  /\ UNCHANGED <<toWake, ready, ip, w, retTo, cancelled, parked, res, round>> /\ UNCH_B /\ UNCH_T /\ UNCH_G
+IsUnparked(a) ==
+  /\ pc[a] = "sb.is_unparked"
+  /\ IF retTo[a] # "g_second"
+       THEN IF unparked[Me(a)] THEN pc' = [pc EXCEPT ![a] = "cv.notify.pop"] /\ retTo' = [retTo EXCEPT ![a] = "wait.ret"]
+                               ELSE pc' = [pc EXCEPT ![a] = "sb.set_release"] /\ UNCHANGED retTo
+       ELSE IF unparked[Me(a)] THEN pc' = [pc EXCEPT ![a] = "sb.take_release"] /\ retTo' = [retTo EXCEPT ![a] = "g_recheck"]
+                               ELSE pc' = [pc EXCEPT ![a] = "wait.ret"] /\ UNCHANGED retTo
+  /\ UNCHANGED <<toWake, ready, ip, w, cancelled, parked, res, round>> /\ UNCH_B /\ UNCH_M /\ UNCH_T /\ UNCH_G
+SetRelease(a) ==
+  /\ pc[a] = "sb.set_release"
+  /\ release' = [release EXCEPT ![Me(a)] = TRUE] /\ pc' = [pc EXCEPT ![a] = "sb.is_unparked"]
+  /\ retTo' = [retTo EXCEPT ![a] = "g_second"]
+  /\ UNCHANGED <<toWake, token, unparked, ready, ip, w, cancelled, parked, res, round>> /\ UNCH_M /\ UNCH_T /\ UNCH_G
+\* internal: wait_impl returns; wait()/wait_timeout() look at the result
+WaitRet(a) ==
+  /\ pc[a] = "wait.ret"
+  /\ IF res[a] = "Canceled"
+       THEN /\ MuRelease(a, "dead", pc) /\ LeaveTimer(a)          \* forget guard, unlock_mutex, cancel panic
+            /\ UNCHANGED <<gaveUp, round, deadline, now>>
+       ELSE /\ pc' = [pc EXCEPT ![a] = "cvc.crit"] /\ UNCH_M /\ UNCH_T
+            /\ gaveUp' = [gaveUp EXCEPT ![a] = (res[a] = "Timeout")]
+            /\ round' = [round EXCEPT ![a] = IF round[a] < 3 THEN round[a] + 1 ELSE round[a]]
+  /\ retTo' = [retTo EXCEPT ![a] = "none"]
+  /\ UNCHANGED <<toWake, ready, ip, w, cancelled, parked, res, notifies, served>> /\ UNCH_B
+
+(* ------------------------------- notify ------------------------------- *)
+NotifyPop(a) ==
+  /\ pc[a] = "cv.notify.pop"
+  /\ IF toWake = <<>>
+       THEN pc' = [pc EXCEPT ![a] = retTo[a]] /\ UNCHANGED <<toWake, w>>
+       ELSE w' = [w EXCEPT ![a] = Head(toWake)] /\ toWake' = Tail(toWake) /\ pc' = [pc EXCEPT ![a] = "sb.unpark"]
+  /\ UNCHANGED <<ready, ip, retTo, cancelled, parked, res, round>> /\ UNCH_B /\ UNCH_M /\ UNCH_T /\ UNCH_G
+\* notify_all: `while let Some(w) = to_wake.pop() { w.unpark() }` - first pop right after the point
+NotifyAllStart(a) ==
+  /\ pc[a] = "cv.notify_all"
+  /\ retTo' = [retTo EXCEPT ![a] = "all"]
+  /\ IF toWake = <<>>
+       THEN pc' = [pc EXCEPT ![a] = "next"] /\ UNCHANGED <<toWake, w>>
+       ELSE w' = [w EXCEPT ![a] = Head(toWake)] /\ toWake' = Tail(toWake) /\ pc' = [pc EXCEPT ![a] = "sb.unpark"]
+  /\ UNCHANGED <<ready, ip, cancelled, parked, res, round>> /\ UNCH_B /\ UNCH_M /\ UNCH_T /\ UNCH_G
+WakeUnpark(a) ==
+  /\ pc[a] = "sb.unpark"
+  /\ LET b == w[a]  t == b[1] IN
+       IF pc[t] = "parked" /\ parked[t] /\ Me(t) = b
+         THEN /\ parked' = [parked EXCEPT ![t] = FALSE] /\ res' = [res EXCEPT ![t] = "Ok"]
+              /\ pc' = [pc EXCEPT ![a] = "sb.set_unparked", ![t] = "sb.park.ret"] /\ UNCHANGED token
+         ELSE /\ token' = [token EXCEPT ![b] = TRUE] /\ pc' = [pc EXCEPT ![a] = "sb.set_unparked"]
+              /\ UNCHANGED <<parked, res>>
+  /\ UNCHANGED <<toWake, unparked, release, ready, ip, w, retTo, cancelled, round>> /\ UNCH_M /\ UNCH_T /\ UNCH_G
+\* set_unparked; in notify_all the next pop follows at once (no take_release, no point)
+WakeSetUnparked(a) ==
+  /\ pc[a] = "sb.set_unparked"
+  /\ unparked' = [unparked EXCEPT ![w[a]] = TRUE]
+  /\ IF retTo[a] = "all"
+       THEN IF toWake = <<>>
+              THEN pc' = [pc EXCEPT ![a] = "next"] /\ UNCHANGED <<toWake, w>>
+              ELSE w' = [w EXCEPT ![a] = Head(toWake)] /\ toWake' = Tail(toWake) /\ pc' = [pc EXCEPT ![a] = "sb.unpark"]
+       ELSE pc' = [pc EXCEPT ![a] = "sb.take_release"] /\ UNCHANGED <<toWake, w>>
+  /\ UNCHANGED <<token, release, ready, ip, retTo, cancelled, parked, res, round>> /\ UNCH_M /\ UNCH_T /\ UNCH_G
+\* take_release by the notifier (on w[a]; TRUE => notify_one again) or by the giving-up waiter
+TakeRelease(a) ==
+  /\ pc[a] = "sb.take_release"
+  /\ LET mine == retTo[a] = "g_recheck"
+         b == IF mine THEN Me(a) ELSE w[a] IN
+       /\ release' = [release EXCEPT ![b] = FALSE]
+       /\ IF release[b]
+            THEN /\ pc' = [pc EXCEPT ![a] = "cv.notify.pop"]
+                 /\ retTo' = IF mine THEN [retTo EXCEPT ![a] = "wait.ret"] ELSE retTo
+            ELSE /\ pc' = [pc EXCEPT ![a] = IF mine THEN "wait.ret" ELSE retTo[a]] /\ UNCHANGED retTo
+  /\ UNCHANGED <<toWake, token, unparked, ready, ip, w, cancelled, parked, res, round>> /\ UNCH_M /\ UNCH_T /\ UNCH_G
+
+NextOp(a) ==
+  /\ pc[a] = "next"
+  /\ IF ip[a] < Len(Prog[a])
+       THEN ip' = [ip EXCEPT ![a] = ip[a] + 1] /\ pc' = [pc EXCEPT ![a] = "cvc.lock"] /\ UNCHANGED timerHost
+       ELSE UNCHANGED ip /\ pc' = [pc EXCEPT ![a] = "done"] /\ LeaveTimer(a)
+  /\ w' = [w EXCEPT ![a] = NoB] /\ retTo' = [retTo EXCEPT ![a] = "none"] /\ res' = [res EXCEPT ![a] = "none"]
+  /\ gaveUp' = [gaveUp EXCEPT ![a] = FALSE] /\ round' = [round EXCEPT ![a] = 1]
+  /\ UNCHANGED <<toWake, ready, cancelled, parked, deadline, now, notifies, served>> /\ UNCH_B /\ UNCH_M
+
+TimedParked == {a \in Actors : pc[a] = "parked" /\ parked[a] /\ deadline[a] > 0}
+Tick ==
+  /\ TimedParked # {} /\ timerHost = "none"
+  /\ LET t == CHOOSE t \in {deadline[a] : a \in TimedParked} : \A a \in TimedParked : t <= deadline[a]
+         v == CHOOSE a \in TimedParked : deadline[a] = t IN
+       /\ now' = t /\ timerHost' = v
+       /\ parked' = [parked EXCEPT ![v] = FALSE] /\ res' = [res EXCEPT ![v] = "Timeout"]
+       /\ pc' = [pc EXCEPT ![v] = "sb.park.ret"]
+  /\ UNCHANGED <<toWake, ready, ip, w, retTo, cancelled, deadline, round>> /\ UNCH_B /\ UNCH_M /\ UNCH_G
+Cancel(a) ==
+  /\ a \in Victims /\ ~cancelled[a] /\ pc[a] \notin {"done", "dead"}
+  /\ cancelled' = [cancelled EXCEPT ![a] = TRUE]
+  /\ IF pc[a] = "parked" /\ ~token[Me(a)]
+       THEN /\ parked' = [parked EXCEPT ![a] = FALSE] /\ res' = [res EXCEPT ![a] = "Canceled"]
+            /\ pc' = [pc EXCEPT ![a] = "sb.park.ret"] /\ UNCH_M
+       ELSE IF pc[a] = "mu.blocked" /\ cont[a] = "cvc.crit"
+         THEN \* blocked in the client's own lock(): the waiter gives up its place and unwinds
+              /\ muq' = SelectSeq(muq, LAMBDA x : x # a) /\ pc' = [pc EXCEPT ![a] = "dead"]
+              /\ cont' = [cont EXCEPT ![a] = "none"] /\ UNCHANGED <<mu, parked, res>>
+         ELSE UNCHANGED <<parked, res, pc>> /\ UNCH_M      \* (the re-lock inside wait runs with cancel disabled)
+  /\ UNCHANGED <<toWake, ready, ip, w, retTo, round>> /\ UNCH_B /\ UNCH_T /\ UNCH_G
+
+Step(a) == \/ ClientLock(a) \/ ClientCrit(a) \/ ClientNotify(a) \/ WaitPush(a) \/ WaitUnlock(a) \/ ParkEnter(a)
+           \/ ParkReturn(a) \/ WaitRelock(a) \/ IsUnparked(a) \/ SetRelease(a) \/ NotifyPop(a) \/ NotifyAllStart(a)
+           \/ WakeUnpark(a) \/ WakeSetUnparked(a) \/ TakeRelease(a)
+Internal(a) == WaitRet(a) \/ NextOp(a)
+InternalPcs == {"wait.ret", "next"}
+Obs(a) == IF pc[a] = "sb.park.ret"
+            THEN (CASE res[a] = "Ok" -> 0 [] res[a] = "Timeout" -> 1 [] OTHER -> 2) ELSE -1
+
+Finished(a) == pc[a] \in {"done", "dead"}
+\* a waiter for whom no notification will ever come blocks for ever by specification
+Notifiers == {a \in Actors : \E i \in ip[a]..Len(Prog[a]) : Prog[a][i] \in {"notify_one", "notify_all"} /\ ~Finished(a)}
+LegitParked(a) == pc[a] = "parked" /\ ~token[Me(a)] /\ deadline[a] = 0 /\ a \notin Victims /\ ready = 0 /\ Notifiers = {}
+Terminal == (\A a \in Actors : Finished(a) \/ LegitParked(a)) /\ UNCHANGED allvars
+Next == (\E a \in Actors : Step(a) \/ Internal(a) \/ Cancel(a)) \/ Tick \/ Terminal
+Spec == Init /\ [][Next]_allvars
+-----------------------------------------------------------------------------
+\* wait always re-acquires the mutex before returning: whoever is in the client's critical section owns it
+ReacquireBeforeReturn == \A a \in Actors : pc[a] \in {"cvc.crit", "wait.ret", "sb.is_unparked", "sb.set_release"} => mu = a
+\* no lost notification: it is never the case that the predicate is set, nobody is on the way to look
+\* at it, and a waiter sleeps without a token
+Quiet(a) == Finished(a) \/ (pc[a] = "parked" /\ ~token[Me(a)])
+NoLostNotify == ~(/\ \A a \in Actors : Quiet(a)
+                  /\ ready > 0
+                  /\ \E a \in Actors : pc[a] = "parked" /\ deadline[a] = 0)
 =============================================================================
